@@ -34,10 +34,11 @@ MODS = {
     "C03": ["PrimitivModel.Props.C03.Arith"],
     "C08": ["PrimitivModel.Props.C08.Arith"],
     "C11": ["PrimitivModel.Props.C11.Arith"],
+    "C10": ["PrimitivModel.Props.C11.Arith"],   # front-end guard theorems are shared with C11
 }
 DRIVERS = ["karith"]
 FAMILY, HARNESS = "karith", "h_karith"
-PROPS = ["C01", "C02", "C03", "C08", "C11"]
+PROPS = ["C01", "C02", "C03", "C08", "C10", "C11"]
 TOL = 2.0 ** -18
 W = 2 ** 32
 
@@ -1266,7 +1267,7 @@ def run_family(chk, prop):
 
     for p in props:
         # ---- C11: crashes, sanitizer reports, canaries
-        if p == "C11":
+        if p in ("C11", "C10"):   # C10: crash, wrong acceptance, a rejected call that already wrote
             for line, (impl, model) in got.items():
                 if impl.startswith("crash"):
                     chk.report("karith:%s:%s" % (meta[line]["kernel"], impl.replace(" ", "-")),
